@@ -25,8 +25,51 @@ def valid_ietf(r, srv=None, size=None, vers=None):
     return d[:1500] if len(d) > 1500 else d
 
 
+def offset_mutant(r, d, hdr_at):
+    """a valid request whose offset table (>= 3 tags) is mutated: swapped / decreasing / past the end /
+    unaligned offsets, keeping length and tags — the decoder must reject it, never panic"""
+    b = bytearray(d)
+    n = struct.unpack_from("<I", b, hdr_at)[0]
+    if n < 3:
+        return bytes(b)
+    offs = [struct.unpack_from("<I", b, hdr_at + 4 + 4 * i)[0] for i in range(n - 1)]
+    body = len(b) - hdr_at - 8 * n
+    how = r.randrange(6)
+    if how == 0:
+        i = r.randrange(n - 2); offs[i], offs[i + 1] = offs[i + 1], offs[i]
+        if offs[i] == offs[i + 1]:
+            offs[i] = offs[i + 1] + 32
+    elif how == 1:
+        offs[0] = offs[1] + 4 * r.randint(1, 8)
+    elif how == 2:
+        offs[r.randrange(n - 1)] = body + 4 * r.randint(0, 3)
+    elif how == 3:
+        offs[r.randrange(n - 1)] += r.choice([1, 2, 3])
+    elif how == 4:
+        offs[-1] = len(b) - 4 * r.randint(0, 2)
+    else:
+        offs = sorted(offs, reverse=True)
+    for i, o in enumerate(offs):
+        struct.pack_into("<I", b, hdr_at + 4 + 4 * i, o & 0xffffffff)
+    return bytes(b)
+
+
+# unsupported version numbers chosen so that the draft-13 wire bytes 0c 00 00 80 appear at every
+# misaligned offset of the concatenated list (a scan must look at aligned 4-byte entries only)
+STRADDLE = [(bytes.fromhex("0100000c"), bytes.fromhex("00008000")),
+            (bytes.fromhex("01000c00"), bytes.fromhex("00800000")),
+            (bytes.fromhex("010c0000"), bytes.fromhex("80000000"))]
+
+
 def junk(r, good_srv):
-    k = r.randrange(16)
+    k = r.randrange(19)
+    if k == 16:  # >= 3 tags, mutated offset table (IETF request with SRV has 4 tags)
+        return offset_mutant(r, valid_ietf(r, srv=good_srv if r.random() < 0.5 else None), 12)
+    if k == 17:  # classic request with an extra field so that it has 3 tags
+        return offset_mutant(r, rt.encode([("NONC", rnd(r, 64)), ("ZZZZ", bytes(8)), ("PAD", bytes(1024 - 8 * 3 - 64 - 8))]), 0)
+    if k == 18:  # unsupported versions whose bytes contain draft-13 at a misaligned offset
+        a, b = r.choice(STRADDLE)
+        return valid_ietf(r, vers=r.choice([(a, b), (bytes.fromhex("01000000"), a, b), (a, b, bytes.fromhex("0b000080"))]))
     if k == 0:
         return rnd(r, r.choice([0, 1, 3, 4, 100, 1023]))
     if k == 1:
@@ -444,6 +487,20 @@ def ver_matrix(ctx, good_srv):
                     d = rt.mk_ietf(nonce, 1024, vers=vs, srv=srv)
                 want = (rt.DRAFT13 in vs[:4]) and (srv is None or srv == good_srv)
                 out.append((d, want))
+    # unsupported lists whose concatenated bytes contain the draft-13 number at a misaligned offset
+    for a, b in STRADDLE:
+        for vs in ((a, b), (bytes(4), a, b), (a, b, bytes.fromhex("0b000080")), (a, b, a, b)):
+            for srv in (None, good_srv):
+                out.append((rt.mk_ietf(nonce, 1024, vers=vs, srv=srv), False))
+        out.append((rt.mk_ietf(nonce, 1024, vers=(a, b, rt.DRAFT13), srv=None), True))
+    # SRV wrong in two bytes whose differences cancel under XOR, bytes swapped, all bytes complemented
+    for i, j in ((0, 31), (3, 4), (10, 20)):
+        s2 = bytearray(good_srv); s2[i] ^= 0x01; s2[j] ^= 0x01; out.append((rt.mk_ietf(nonce, 1024, srv=bytes(s2)), False))
+        s2 = bytearray(good_srv); s2[i] ^= 0xff; s2[j] ^= 0xff; out.append((rt.mk_ietf(nonce, 1024, srv=bytes(s2)), False))
+        s2 = bytearray(good_srv); s2[i], s2[j] = s2[j], s2[i]
+        if bytes(s2) != good_srv:
+            out.append((rt.mk_ietf(nonce, 1024, srv=bytes(s2)), False))
+    out.append((rt.mk_ietf(nonce, 1024, srv=bytes(x ^ 0xff for x in good_srv)), False))
     # SRV under every single-bit corruption, wrong lengths, another server's value
     for bit in range(256):
         s2 = bytearray(good_srv); s2[bit // 8] ^= 1 << (bit % 8)
@@ -487,7 +544,9 @@ def run_generic(ctx, pid, rule, fault=0, levels=(3,)):
 
 
 def run_c09(ctx):
-    run_generic(ctx, "C09", "in-process server, interleavings of valid classic / valid IETF / invalid datagrams from 1..20 sockets (several per socket, identical nonces from different sockets), bursts smaller / equal / larger than batch_size; non-trivial = distinct round with >= 2 datagrams of which at least one is accepted")
+    run_generic(ctx, "C09", "in-process server, interleavings of valid classic / valid IETF / invalid datagrams from 1..20 sockets (several per socket, identical nonces from different sockets), bursts smaller / equal / larger than batch_size; Responder::send_responses with destinations the kernel refuses anywhere in a batch (a refused send must cost exactly that one reply); non-trivial = distinct round with >= 2 datagrams of which at least one is accepted")
+    from props import stats as statsmod
+    statsmod.responder_send_failures(ctx)      # C09_drain_send_failures: every OTHER request still gets its reply
     proof_verdict(ctx)
 
 
@@ -503,6 +562,7 @@ def measure_faults(ctx):
             eng.add((16, p, 3, 0), rounds * 1, 6)
         eng.run()
         pairs = []
+        groups = []        # (session, round, protocol) of each reply: one send_responses call
         for s, lines, il, ml in eng.results:
             for k, rd in enumerate(s["rounds"]):
                 pi = parse_run(il[1 + k])
@@ -517,6 +577,7 @@ def measure_faults(ctx):
                     # candidates: requests of that socket and protocol; a reply verifies for at most its own request
                     cands = [d for d in reqs.get(sock, []) if (d[:8] == rt.MAGIC) == (ver == "RfcDraft13")]
                     pairs.append((s, ver, cands, b))
+                    groups.append((id(s), k, ver))
         lines = []
         for s, ver, cands, b in pairs:
             for d in cands:
@@ -531,6 +592,7 @@ def measure_faults(ctx):
         qout = vlib.run_impl(qlines)
         k = 0
         n = fails = 0
+        outcome = []
         for s, ver, cands, b in pairs:
             ok_any = False
             for d in cands:
@@ -541,11 +603,26 @@ def measure_faults(ctx):
                     ok_any = True
             n += 1
             fails += 0 if ok_any else 1
+            outcome.append(ok_any)
         ctx.evaluations += n
         exp = p / 100.0 * (1 - 1 / 1440.0)
         sigma = math.sqrt(exp * (1 - exp) / max(n, 1))
         share = fails / max(n, 1)
         ctx.extra.setdefault("fault_rate_measurements", []).append({"p": p, "replies": n, "failing": fails, "share": round(share, 4), "expected": round(exp, 4), "six_sigma": round(6 * sigma, 4)})
+        # the decision is made per RESPONSE: within one batch of one protocol the outcomes are independent,
+        # so batches whose replies all fail or all verify are rare in a computable way; perfectly correlated
+        # outcomes keep the mean at p but put the share outside any binomial band most of the time
+        if p >= 5:
+            by = {}
+            for g, okr in zip(groups, outcome):
+                by.setdefault(g, []).append(okr)
+            sizes = [len(v) for v in by.values() if len(v) >= 4]
+            uniform = sum(1 for v in by.values() if len(v) >= 4 and (all(v) or not any(v)))
+            e_uni = sum(exp ** m + (1 - exp) ** m for m in sizes)
+            ctx.extra.setdefault("fault_batch_uniformity", []).append({"p": p, "batches": len(sizes), "uniform": uniform, "expected_uniform": round(e_uni, 2)})
+            if sizes and uniform > e_uni + 6 * math.sqrt(max(e_uni, 1.0)) + 3:
+                ctx.violation("property", "with fault_percentage=%d, %d of %d multi-reply batches are uniform (all replies fail or all verify) where independent per-response decisions give %.1f: the failing share over a run is not p within statistical error" % (p, uniform, len(sizes), e_uni),
+                              {"cmd": "fault-rate", "p": p, "batches": len(sizes), "uniform": uniform, "expected_uniform": e_uni})
         if n < 2000:
             ctx.note("fault measurement at p=%d has only %d replies" % (p, n))
         if abs(share - exp) > 6 * sigma + 1e-9:
